@@ -16,6 +16,7 @@
 -/
 import GqlVerif.Proofs.C10
 import GqlVerif.Proofs.C10Tree
+import GqlVerif.Proofs.C10Lock
 namespace GqlVerif.Props.C10
 open GqlVerif GqlVerif.Defer
 
@@ -179,5 +180,31 @@ def parentEx : Nat → Nat := fun g => if g == 2 then 1 else if g == 3 then 1 el
 example : anc parentEx 3 (parentEx 4) = true ∧ anc parentEx 1 (parentEx 4) = true ∧ anc parentEx 2 (parentEx 4) = false := by decide
 example : (2 ≤ parentEx 4) ∧ 2 ∉ [1, 3] := by decide
 end Tree
+
+/-! ## The render / flush region of concurrent deferred groups (model: GqlVerif.Proto.DeferLock)
+
+  All deferred groups write into one buffered writer; groups of a Parallel node run concurrently. The region
+  `Lock · render… · Flush · Unlock` of `resolveDeferSingle` (tied in `Ties.C10.resolveDeferSingle_tie`: the unlock is
+  deferred, the flush is the returned expression) is what keeps the frames of different groups apart. -/
+section Lock
+open GqlVerif.Proto.DeferLock
+
+/-- **in every interleaving of any number of groups, every frame sent is the payload of exactly one group** -/
+theorem frames_of_concurrent_groups_never_interleave (as : List Act) (s : St) (h : run {} as = some s) :
+    ∀ fr ∈ s.out, Homogeneous fr := frames_never_interleave as s h
+
+/-- whenever no group holds the lock, nothing rendered is waiting in the buffer -/
+theorem buffer_empty_when_unlocked (as : List Act) (s : St) (h : run {} as = some s) : s.lock = none → s.buf = [] :=
+  nothing_unsent_when_unlocked as s h
+
+/-! Non-vacuity; and the region is necessary: with the flush after the unlock a second group renders in between and one
+    frame carries both payloads. -/
+example : (run {} [.acq 1, .rend 1, .rend 1, .flush 1, .rel 1, .acq 2, .rend 2, .flush 2, .rel 2]).map (·.out) = some [[1, 1], [2]] := by decide
+example : (run {} [.acq 1, .rend 1, .acq 2]).isNone = true := by decide
+example : (runLate {} [.acq 1, .rend 1, .rel 1, .acq 2, .rend 2, .flush 1]).map (·.out) = some [[1, 2]] := by decide
+example : ¬ Homogeneous [1, 2] := by
+  rintro ⟨g, h⟩
+  have h1 := h 1 (by simp); have h2 := h 2 (by simp); omega
+end Lock
 
 end GqlVerif.Props.C10
